@@ -5,7 +5,10 @@
    E13 <seed> <tier> | env:<n> <record>...   a real Session against the mock cluster; per logical request
                                        (page) the frames the mock saw must be accepted by [e2e_check13] on a
                                        certificate the driver proposes (fibers + a schedule of execute) *)
+(* an error name may carry a field suffix `~<fields>` (which field values the runner gave the real value):
+   the model's tables do not look at fields, the suffix is dropped *)
 let err_of_name (s : string) : request_error =
+  let s = match String.index_opt s '~' with Some i -> String.sub s 0 i | None -> s in
   match request_error_of_name (chars_of_string s) with
   | Some e -> e
   | None -> failwith ("unknown error name " ^ s)
@@ -362,7 +365,7 @@ let e2e_line (judge : string -> string) (impl : string list) : string =
 let verdict case impl =
   match case, impl with
   | "E13" :: _, _ -> e2e_line e2e13_record impl
-  | ["I"; r], [obs] ->
+  | [("I" | "IF"); r], [obs] ->
     let r = res_of_string r in
     let m = can_be_ignored r in
     let o = (obs = "1") in
@@ -371,7 +374,7 @@ let verdict case impl =
     (* the property text does not fix which errors are ignorable; the model's table (and its positive
        copy spec_transient) is the reading: a changed classification is a broken correspondence *)
     else "diff model=" ^ (if m then "1" else "0") ^ " spec=" ^ (if is_ignorable (Some r) then "1" else "0")
-  | ["X"; max; iv; fs], (_ :: _ as observed) ->
+  | [("X" | "XF"); max; iv; fs], (_ :: _ as observed) ->
     let max = nat_of_int (int_of_n (n_of_hex max)) and iv = n_of_hex iv in
     let fs = fibers_of_string fs in
     (* the last token tells how the REAL can_be_ignored classified each listed outcome.  The property text
